@@ -115,6 +115,7 @@ def _locality(arr, first, ref, n):
     import re as _re
     if not isinstance(arr, NA) or arr.ndim != 1:
         return None
+    extras = []
     for i in range(first, min(n, len(arr.data))):
         x = arr.data[i]
         if not isinstance(x, D):
@@ -127,7 +128,14 @@ def _locality(arr, first, ref, n):
                 allowed |= 1 << int(m.group(1))
         extra = x.m & ~allowed
         if allowed and extra:
-            return i, [k for k in range(extra.bit_length()) if extra >> k & 1][:6]
+            extras.append((i, extra))
+    # a fixed reference point outside the window (the series centred on its first value) is harmless; what is reported is a set of
+    # out-of-window candles that GROWS with the position - sums over the history whose old terms are meant to cancel
+    if len(extras) >= 2:
+        (i1, e1), (i2, e2) = extras[0], extras[-1]
+        n1, n2 = bin(e1).count("1"), bin(e2).count("1")
+        if n2 > n1 and n2 >= 3:
+            return i2, [k for k in range(e2.bit_length()) if e2 >> k & 1][:6]
     return None
 
 
@@ -184,8 +192,8 @@ def check_windowed(repo, rep):
                 loc = _locality(out[field], first, ref, N)
                 if loc is not None:
                     i, extra = loc
-                    rep.violation(rid, f"{name}|{field}|locality", f"{name}({params}) field '{field}', element {i} depends on candle(s) {extra} outside the window of its definition "
-                                                                  f"({desc}): the value is not a function of the trailing window (terms of the whole history only cancel in exact arithmetic)")
+                    rep.violation(rid, f"{name}|{field}|locality", f"{name}({params}) field '{field}', element {i} depends on candle(s) {extra} .. outside the window of its definition "
+                                                                  f"({desc}), and on more of them the further the series goes: the value is not a function of the trailing window (sums over the whole history only cancel in exact arithmetic)")
                     continue
                 compare_series(rep, rid, name, params, field, elems(out[field], memo), first, ref, N, desc)
         except Undecided as e:
